@@ -253,7 +253,8 @@ where
         }
 
         // The actual pass.
-        let (pass_metadata, part_weights_sum) = partition
+        let initial_part_weights = &part_weights;
+        let (pass_metadata, gains, losses) = partition
             .par_chunks(items_per_thread)
             .enumerate()
             .map(|(chunk_idx, chunk)| {
@@ -277,32 +278,56 @@ where
                 }
                 #[cfg(coupe_verif)]
                 crate::verif_hooks::event(crate::verif_hooks::Ev::TaskEnd(chunk_idx));
-                (metadata, part_weights)
+                // What this thread added to and removed from each part.
+                let mut gains = vec![W::zero(); part_count];
+                let mut losses = vec![W::zero(); part_count];
+                for (((gain, loss), thread_pw), pw) in gains
+                    .iter_mut()
+                    .zip(&mut losses)
+                    .zip(part_weights)
+                    .zip(initial_part_weights)
+                {
+                    if *pw <= thread_pw {
+                        *gain = thread_pw - *pw;
+                    } else {
+                        *loss = *pw - thread_pw;
+                    }
+                }
+                (metadata, gains, losses)
             })
             .reduce(
-                || (Metadata::default(), vec![W::zero(); part_count]),
-                |(metadata1, mut part_weights1), (metadata2, part_weights2)| {
+                || {
+                    (
+                        Metadata::default(),
+                        vec![W::zero(); part_count],
+                        vec![W::zero(); part_count],
+                    )
+                },
+                |(metadata1, mut gains1, mut losses1), (metadata2, gains2, losses2)| {
                     let metadata = Metadata::merge(metadata1, metadata2);
-                    // part weights are summed for the `part_weights` update
-                    // further below.
-                    for (pw1, pw2) in part_weights1.iter_mut().zip(part_weights2) {
-                        *pw1 += pw2;
+                    for (gain1, gain2) in gains1.iter_mut().zip(gains2) {
+                        *gain1 += gain2;
                     }
-                    (metadata, part_weights1)
+                    for (loss1, loss2) in losses1.iter_mut().zip(losses2) {
+                        *loss1 += loss2;
+                    }
+                    (metadata, gains1, losses1)
                 },
             );
 
         // Update `part_weights` using the following formula:
         //
         //     PW <- PW + (tPW0 - PW) + ... + (tPWn - PW)
-        // simplified to
-        //     PW <- (sum_i tPWi) - (thread_count - 1) * PW
         //
-        // where tPWi is the thread_local part-weights array.
+        // where tPWi is the thread_local part-weights array, adding what the
+        // threads brought in before removing what they took out.  Summing the
+        // tPWi first (about thread_count * PW) can overflow the weight type
+        // although the total weight fits.
         // I think the whole thing is correct because vertices are locked and no
         // two threads can do the same move at the same time.
-        for (pw, pw_sum) in part_weights.iter_mut().zip(part_weights_sum) {
-            *pw = pw_sum - W::from_usize(thread_count - 1).unwrap() * *pw;
+        for ((pw, gain), loss) in part_weights.iter_mut().zip(gains).zip(losses) {
+            *pw += gain;
+            *pw -= loss;
         }
 
         metadata = metadata.merge(pass_metadata);
